@@ -4,6 +4,8 @@
 //! stdin : `id be=<ntt120ref|fft64ref|ntt120avx|fft64avx> n=N base2k=B keys=k1,k2,… pool=size:delta:budget/… \
 //!          ops=op;op;… [vals=1] [mag=M] [cstexp=E]`      (op syntax: lean/Poulpy/Driver/Ckks.lean)
 //!         `id roundtrip n=N base2k=B delta=D budget=L mag=M`   (encode → to_znx → decode identity)
+//!         `id toznx float=f64|f128 form=vec|cst base2k=B delta=D budget=L [k=K] vals=m:e[+m:e…];…|nan|inf|-inf|-`
+//!                                                              (the float → integer conversion of to_znx / to_znx_at_k on exact inputs)
 //! stdout: `id step|step|… [value-diagnostics]`, a step being `ok@POOL`, `err:<Variant:fields>@POOL`
 //!         or `panic:<class>` (execution stops), POOL = `delta.budget.size` per slot joined by `/`.
 //!         With `vals=1` a second token lists, per step, `-` or `log2(max slot error):log_delta`
